@@ -11,6 +11,7 @@ against SPL (extension numbers, byte layouts, length checks, epoch selection).
 Thresholds / events / liquidity limits on user-visible amounts are decided by the
 instances of C03.R1, C06.R6 and C08.R3.
 Also decided: with the extension present nothing but the epoch decides which fee schedule applies.
+Also decided: the Pinocchio TLV view of a mint starts at byte 166 (slice start and length guard), where SPL puts the first extension.
 Not decided: SPL's fee arithmetic itself; amounts actually received."""
 import re
 from analysis import cfg, atoms as A, preach, pino, layout as L
